@@ -167,7 +167,7 @@ def _check_interp(idata: dict, z: str):
     keys = idata.keys()
     if not "vi" in keys or not "io" in keys or not z in keys:
         raise ValueError("interpolation data must contain vi, io and " + z)
-    if not np.all(np.diff(idata["io"]) > 0):
+    if not np.all(np.diff(np.abs(idata["io"])) > 0):
         raise ValueError("io values must be monotonic increasing")
     vsh = np.array(idata["vi"]).shape
     ish = np.array(idata["io"]).shape
